@@ -24,9 +24,9 @@ func init() {
 		Rule: "one run = one interceptor kind (unary server, unary client, server stream wrapper) with a seeded option combination (limiter given or default, each classifier given or default, custom limit-exceeded code and response) driven through a seeded sequence of calls / RecvMsg / SendMsg operations under a fault plan (limiter refuses call k, handler / invoker / stream errors such as io.EOF, context.Canceled and status errors at seeded positions, classifier answers among success / ignore / dropped); a quarter of the stream runs put RecvMsg and SendMsg of one stream on two tasks over real limit-1 limiters under a seeded schedule; " +
 			"oracle from the event log: Acquire on the right limiter precedes the wrapped call, wrapped call iff granted, exactly one listener method of the classified kind, result and error returned unchanged, refusal => no wrapped call, no listener call, status code and response of the limit-exceeded classifier; " +
 			"non-trivial = the run contained a refusal, an error outcome and (streams) both directions; distinct = distinct choice tapes / event hashes",
-		Real:       []string{"grpc.UnaryServerInterceptor", "grpc.UnaryClientInterceptor", "grpc.StreamServerInterceptor (ssRecvWrapper)", "grpc options", "google.golang.org/grpc status/codes", "limiter.DefaultLimiter (concurrent part)"},
-		Stubs:      []string{"recording core.Limiter / core.Listener doubles", "fake UnaryHandler / UnaryInvoker / grpc.ServerStream (no network)"},
-		FaultKinds: []string{"F-refuse", "F-outcome"},
+		Real:        []string{"grpc.UnaryServerInterceptor", "grpc.UnaryClientInterceptor", "grpc.StreamServerInterceptor (ssRecvWrapper)", "grpc options", "google.golang.org/grpc status/codes", "limiter.DefaultLimiter (concurrent part)"},
+		Stubs:       []string{"recording core.Limiter / core.Listener doubles", "fake UnaryHandler / UnaryInvoker / grpc.ServerStream (no network)"},
+		FaultKinds:  []string{"F-refuse", "F-outcome"},
 		Assumptions: []string{"stream operations: RecvMsg errors are classified by the stream server classifier, SendMsg errors by the stream client classifier (the mapping the package documents through its option names)"},
 	})
 }
